@@ -64,6 +64,22 @@ fn assignments() -> Vec<Assign> {
         .collect()
 }
 
+fn tight_assignments() -> Vec<Assign> {
+    let mk = |scale: f64| Assign {
+        vars: [(0.7312, 0.2153), (1.3871, -0.4419), (-0.6127, 0.9173), (2.1417, 0.3331)]
+            .iter()
+            .enumerate()
+            .map(|(i, (re, im))| (VAR_NAMES[i].to_string(), Complex64::new(re * scale, im * scale)))
+            .collect(),
+        mem: [[0.8173, -1.2931, 2.4471], [1.5519, 0.3371, -0.7719], [-0.4417, 1.1931, 0.6173]]
+            .iter()
+            .enumerate()
+            .map(|(i, c)| (REGION_NAMES[i].to_string(), c.iter().map(|v| v * scale).collect()))
+            .collect(),
+    };
+    vec![mk(1.0), mk(1e6)]
+}
+
 fn finite(c: Complex64) -> bool {
     c.re.is_finite() && c.im.is_finite()
 }
@@ -225,10 +241,19 @@ fn mutate(out: E, input: &E, mutant: u32) -> E {
 
 struct Ctx {
     asg: Vec<Assign>,
+    /// two assignments for the tolerance-boundary stream: magnitudes ~1 and ~1e6
+    tight_asg: Vec<Assign>,
     mutant: u32,
 }
 
 fn run_case(run: &mut Run, ctx: &Ctx, e: &E, stream: &str) {
+    run_case_mode(run, ctx, e, stream, false, true)
+}
+
+/// `tight`: numeric oracle at the magnitude-1 / magnitude-1e6 assignments with tolerance
+/// 1e-12 x (largest intermediate magnitude), so that a relative change of 1e-9 in one operand is
+/// seen.  `structural`: also emit the Coq case (pointless for literals that are not small dyadics).
+fn run_case_mode(run: &mut Run, ctx: &Ctx, e: &E, stream: &str, tight: bool, structural: bool) {
     let ex = to_impl(e);
     let simplified = match qv::catch(move || ex.into_simplified()) {
         Ok(s) => s,
@@ -243,26 +268,29 @@ fn run_case(run: &mut Run, ctx: &Ctx, e: &E, stream: &str) {
 
     // (b) numeric oracle
     let mut compared = 0;
-    for (k, a) in ctx.asg.iter().enumerate() {
+    let (asg, rel) = if tight { (&ctx.tight_asg, 1e-12) } else { (&ctx.asg, 1e-6) };
+    for (k, a) in asg.iter().enumerate() {
         let Some(scale) = scale_of(e, a) else { continue };
+        let tol = rel * scale;
         let v0 = to_impl(e).evaluate(&a.vars, &a.mem).expect("complete assignment");
         compared += 1;
         let ok = match out_impl.evaluate(&a.vars, &a.mem) {
-            Ok(v1) => finite(v1) && (v1 - v0).norm() <= 1e-6 * scale,
+            Ok(v1) => finite(v1) && (v1 - v0).norm() <= tol,
             Err(_) => false,
         };
         if !ok {
             let v1 = out_impl.evaluate(&a.vars, &a.mem);
             let (c0, c1) = (eval_clean(e, a), eval_clean(&out, a));
-            let signed_zero = (finite(c0) && finite(c1) && (c1 - c0).norm() <= 1e-6 * scale)
+            let signed_zero = (finite(c0) && finite(c1) && (c1 - c0).norm() <= tol)
                 || on_branch_cut(e, a)
                 || on_branch_cut(&out, a);
             let known = if signed_zero && known.is_none() { Some("signed-zero-branch-cut") } else { known };
             run.process_failure(
                 &format!(
-                    "simplification changed the value: {} simplifies to {} ; at assignment #{k} the input evaluates to {v0} and the result to {v1:?}",
+                    "simplification changed the value: {} simplifies to {} ; at assignment #{k}{} the input evaluates to {v0} and the result to {v1:?}",
                     to_impl(e).to_quil_or_debug(),
-                    out_impl.to_quil_or_debug()
+                    out_impl.to_quil_or_debug(),
+                    if tight { " (tolerance stream)" } else { "" }
                 ),
                 &show(e),
                 known,
@@ -273,10 +301,14 @@ fn run_case(run: &mut Run, ctx: &Ctx, e: &E, stream: &str) {
     }
     run.count(if compared > 0 { "numeric=compared" } else { "numeric=not-finite" });
 
+    run.count(&format!("stream={stream}"));
+    if !structural {
+        run.count("numeric-only");
+        return;
+    }
     // (a) structural case
     let lit = format!("({}, {})", coq_sv(e), coq_sv(&out));
     let changed = out != *e;
-    run.count(&format!("stream={stream}"));
     run.count(&format!("size={}", e.size().min(16)));
     run.count(if changed { "simplified=changed" } else { "simplified=unchanged" });
     run.count(if out.any(&|s| matches!(s, E::Num(re, im) if sv(*re, *im) == "SUnk")) {
@@ -457,7 +489,7 @@ fn main() {
         }
         return;
     }
-    let ctx = Ctx { asg: assignments(), mutant: exprgen::mutant() };
+    let ctx = Ctx { asg: assignments(), tight_asg: tight_assignments(), mutant: exprgen::mutant() };
     let header = "From Coq Require Import List NArith ZArith QArith.\nFrom QV Require Import Model.Expr Model.ExactNum Model.Simplify Model.SimplifyExec.\nImport ListNotations.\nOpen Scope N_scope.";
     let mut run = Run::new(&args.out, header, "c12case", "failing", 500);
 
@@ -581,17 +613,69 @@ fn main() {
     for e in &tol_cases {
         run_case(&mut run, &ctx, e, "tolerance");
     }
+    // (4) tolerance-boundary stream: constants c, 1+-c, -1-c around the thresholds of is_zero / is_one
+    // in every operand position where they are consulted.  Dyadic magnitudes are also compared
+    // structurally (the executed model has the code's thresholds); decimal ones numerically only.
+    let p2 = |k: i32| (2f64).powi(k);
+    let dyadic_mags = [
+        p2(-40), p2(-36), p2(-34), p2(-33), p2(-32), p2(-30), p2(-27), p2(-23), p2(-20), p2(-19),
+        3.0 * p2(-20), p2(-18), p2(-17), p2(-13), p2(-10),
+    ];
+    let decimal_mags = [
+        1e-12, 9e-11, 1.0000001e-10, 2e-10, 1e-9, 1e-8, 1e-7, 1e-6, 2e-6, 3e-6, 3.3e-6, 1e-5, 1e-4, 1e-3,
+    ];
+    let mut ntol = 0u64;
+    for (mags, structural) in [(&dyadic_mags[..], true), (&decimal_mags[..], false)] {
+        for &c in mags {
+            // real, negative real, imaginary, two-part (norm ~ 0.99 c: norm vs norm_sqr matters)
+            let h = if structural { c * 0.6875 } else { c * 0.7 };
+            let kinds: [(f64, f64); 4] = [(c, 0.0), (-c, 0.0), (0.0, c), (h, h)];
+            for (re, im) in kinds {
+                let forms: [(f64, f64); 4] = [(re, im), (1.0 + re, im), (1.0 - re, -im), (-1.0 - re, im)];
+                for (fi, (fr, fim)) in forms.iter().enumerate() {
+                    let lit = E::Num(*fr, *fim);
+                    // the same constant as a folded subexpression
+                    let folded = if fi == 0 {
+                        E::infix(E::Num(2.0 * re, 2.0 * im), Op::Star, E::Num(0.5, 0.0))
+                    } else if fi == 1 {
+                        E::infix(E::Num(1.0, 0.0), Op::Plus, E::Num(re, im))
+                    } else if fi == 2 {
+                        E::infix(E::Num(1.0, 0.0), Op::Minus, E::Num(re, im))
+                    } else {
+                        E::neg(E::infix(E::Num(1.0, 0.0), Op::Plus, E::Num(re, im)))
+                    };
+                    let consts = if rng.chance(1, 2) { vec![lit.clone(), folded] } else { vec![lit.clone()] };
+                    for k in consts {
+                        let mut cases: Vec<E> = Vec::new();
+                        for (oi, o) in ALL_OP.iter().enumerate() {
+                            let (co1, co2) = if oi % 2 == 0 { (x(), E::Addr(0, 0)) } else { (E::Addr(0, 0), x()) };
+                            cases.push(E::infix(k.clone(), *o, co1));
+                            cases.push(E::infix(co2, *o, k.clone()));
+                        }
+                        cases.push(E::infix(E::infix(x(), Op::Star, k.clone()), Op::Plus, y()));
+                        cases.push(E::infix(y(), Op::Slash, E::infix(k.clone(), Op::Star, x())));
+                        cases.push(E::infix(E::infix(k.clone(), Op::Plus, x()), Op::Minus, x()));
+                        cases.push(E::fnc(F::Cos, E::infix(x(), Op::Caret, k.clone())));
+                        for e in &cases {
+                            run_case_mode(&mut run, &ctx, e, "tolerance-boundary", true, structural);
+                            ntol += 1;
+                        }
+                    }
+                }
+            }
+        }
+    }
     run.finish(
         "exhaustive: every expression tree of depth <= 2 with at most N nodes (N = extra.full_nodes; 7 = all of depth 2) \
          over {0, 1, 2, -0.5, %x, %y, a[0]; cis cos exp sin sqrt, prefix -, prefix +; ^ + - / *}; a seeded sample of the \
          remaining depth-2 trees; a rule-directed stream (the left-hand side of every arm of the simplifier and close \
          neighbours, in every ordering of its commutative nodes, each pattern variable bound to %x, %y, a[0], 0, 1, -1, 2, 0.5 \
          and to small compound expressions, also with two variables equal, bare and under one more operator); seeded random trees of depth <= 5 over a larger alphabet (incl. pi, a complex literal, \
-         repeated subtrees); deep chains of 6..11 unary/binary wrappers around a random depth-2 core (the limit of 10 runs out inside); all depth-1 trees over literals within 1e-10 of 0 and 1; the regression corpus of finding \
+         repeated subtrees); deep chains of 6..11 unary/binary wrappers around a random depth-2 core (the limit of 10 runs out inside); all depth-1 trees over literals within 1e-10 of 0 and 1; a tolerance-boundary stream (constants c, 1+c, 1-c, -1-c for |c| from 1e-12 to 1e-3 across the 1e-10 threshold, real / imaginary / two-part, as literals and as folded subexpressions, on either side of every operator with variable and memory co-operands; numeric oracle at magnitudes 1 and 1e6 with tolerance 1e-12; dyadic magnitudes also structurally); the regression corpus of finding \
          witnesses. Distinct by the tree; non-trivial = the implementation's simplified form differs from the input.",
         true,
         serde_json::json!({"full_nodes": full_nodes, "exhaustive_cases": nsmall, "depth2_sample": sampled_d2,
-                           "rule_directed_cases": nrule, "rule_patterns": pats.len(), "random_cases": nrand, "deep_cases": ndeep, "tolerance_cases": tol_cases.len(), "corpus": corpus.len(),
+                           "rule_directed_cases": nrule, "rule_patterns": pats.len(), "random_cases": nrand, "deep_cases": ndeep, "tolerance_cases": tol_cases.len(), "tolerance_boundary_cases": ntol, "corpus": corpus.len(),
                            "mutant": ctx.mutant}),
     );
 }
